@@ -265,9 +265,12 @@ impl MultiState {
             .unwrap_or_default();
 
         // Make `DrawTarget` forget about the zombie lines so that they aren't cleared on next draw.
+        // With bottom alignment there may be blank padding lines above the zombie lines: they
+        // cannot be reached any more either.
+        let padding = self.draw_target.take_padding();
         let kept = self
             .draw_target
-            .adjust_last_line_count(LineAdjust::Keep(line_count));
+            .adjust_last_line_count(LineAdjust::Keep(line_count.saturating_add(padding)));
 
         // Track the total number of zombie lines on the screen: only lines that actually are on
         // the screen count (after `clear()` the member's lines are not).
@@ -371,10 +374,12 @@ impl MultiState {
         // so they aren't cleared on next draw. Only now do they count as zombie lines on the
         // screen: the draw was not refused by the rate limiter, and they are no longer part of
         // the lines the `DrawTarget` clears by itself.
-        if !prints_text {
+        if !prints_text && adjust > VisualLines::default() {
+            // (as in `mark_zombie`, the padding lines above the zombie lines go with them)
+            let padding = self.draw_target.take_padding();
             let kept = self
                 .draw_target
-                .adjust_last_line_count(LineAdjust::Keep(adjust));
+                .adjust_last_line_count(LineAdjust::Keep(adjust.saturating_add(padding)));
             self.zombie_lines_count += kept;
         }
 
